@@ -24,7 +24,7 @@ ASSUMPTIONS = [
     "ball_started",
 ]
 EVENTS = ["hit_cnt", "hit_cnt", "cnt_off", "cnt_on", "acc_1", "acc_2", "acc_3", "seq_1", "seq_2", "seq_3", "shot_on", "shot_off",
-          "ach_enable", "ach_start", "ach_stop", "ach_complete", "ach_disable", "ach_reset", "pause_tim",
+          "ach_enable", "ach_start", "ach_stop", "ach_complete", "ach_disable", "ach_reset", "pause_tim", "start_timr", "pause_timr",
           "score_100", "score_100", "add_custom", "set_name", "start_gm2", "start_gm2", "stop_gm2", "q_1", "q_1", "q_2", "q_3",
           "pause_q", "pause_q", "hit_sg1", "hit_sg2", "hit_sg3", "grp_rotate", "grp_rotate", "grp_rotate", "grp_rot_off"]
 op = st.one_of(
@@ -321,6 +321,115 @@ def check(case):
     return Result(vio or None, sorted(classes) or ["plain"], nontrivial)
 
 
+# ---- every player's first ball is the same ball: identical inputs give identical records ------------------------------
+TWIN_EVENTS = ["hit_cnt", "cnt_off", "cnt_on", "acc_1", "acc_2", "seq_1", "seq_2", "shot_on", "shot_off", "ach_enable",
+               "ach_start", "ach_complete", "hit_sg1", "hit_sg2", "grp_rotate", "grp_rotate", "grp_rot_off", "ag_select",
+               "ag_rotate", "ag_rotate", "ag_start", "ag_complete1", "pause_tim", "start_timr", "pause_timr", "score_100", "add_custom", "SHOT"]
+case_twin = st.fixed_dictionaries({
+    "players": st.integers(2, 3),
+    "seq": st.lists(st.one_of(st.sampled_from(TWIN_EVENTS), st.sampled_from([10, 60, 300, 1000]).map(lambda a: "ADV%d" % a)),
+                    min_size=3, max_size=25),
+    # what the players before did differently at the end of their ball (must not matter to the next player)
+    "extra": st.lists(st.sampled_from(TWIN_EVENTS), max_size=6),
+    "second_game": st.booleans(),
+})
+
+
+OFFSET = 2.023
+
+
+def check_twin(case):
+    """All players (and the first player of the next game) get the same inputs on their first ball. Everything that is
+    kept per player must then be identical at the end of that ball: whatever differs was carried over from another
+    player's turn or from the previous game."""
+    vio = []
+    classes = set()
+    with Rig("players11", base="fakegame") as rig:
+        m = rig.machine
+        ev = m.events
+
+        def record(p):
+            pv = pvars(p)
+            return {k: v for k, v in pv.items() if k not in ("number", "index")}
+
+        def play(seq):
+            for e in seq:
+                if e == "SHOT":
+                    m.switch_controller.process_switch("s_shot", 1, logical=True)
+                    rig.run_ready()
+                    m.switch_controller.process_switch("s_shot", 0, logical=True)
+                    rig.run_ready()
+                elif e.startswith("ADV"):
+                    rig.advance(int(e[3:]) / 1000.0)
+                else:
+                    ev.post(e)
+                    rig.run_ready()
+
+        started = []
+        ev.add_handler("mode_gm_started", lambda **kwargs: started.append(rig.loop.time()))
+
+        def align():
+            """Every compared ball begins its inputs exactly OFFSET after its mode started (the timers tick with the
+            virtual clock; the offset keeps all inputs 3 ms or more away from a 50 ms tick boundary)."""
+            if started:
+                rig.advance(max(0.0, OFFSET - (rig.loop.time() - started[-1])))
+
+        def drain():
+            n = len(started)
+            ev.post_relay("ball_drain", balls=m.game.balls_in_play)
+            m.playfield.balls = 0
+            m.playfield.available_balls = 0
+            for _ in range(100):           # until the next ball (or the end of the game); leftovers of this turn stay pending
+                if len(started) > n or m.game is None:
+                    break
+                rig.advance(0.05)
+
+        def start_game(n):
+            rig.case.start_game()
+            rig.advance(0.15)
+            for _ in range(n - 1):
+                m.switch_controller.process_switch("s_start", 1, logical=True)
+                rig.run_ready()
+                m.switch_controller.process_switch("s_start", 0, logical=True)
+                rig.advance(0.05)
+            rig.advance(0.1)
+        start_game(case["players"])
+        records = []
+        for i in range(case["players"]):
+            if m.game is None or m.game.player is None or m.game.player.number != i + 1 or m.game.player.ball != 1:
+                break
+            align()
+            play(case["seq"])
+            records.append((i + 1, record(m.game.player)))
+            play(case["extra"][: 2 * (i + 1)])      # the players differ in what they do afterwards
+            drain()
+        if case["second_game"] and m.game is not None:
+            m.game.end_game()
+            m.playfield.balls = 0
+            m.playfield.available_balls = 0
+            rig.advance(1.5)
+            if m.game is None:
+                start_game(1)
+                align()
+                play(case["seq"])
+                records.append(("1 of the next game", record(m.game.player)))
+                classes.add("second-game")
+        base = records[0][1] if records else None
+        for who, rec in records[1:]:
+            if rec != base:
+                diff = {k: (base.get(k), rec.get(k)) for k in set(base) | set(rec) if base.get(k) != rec.get(k)}
+                vio.append(violation("twin:first-ball-differs:" + ",".join(sorted(diff))[:60],
+                                     "player 1 and player %s got the same inputs %r on their first ball but their records "
+                                     "differ (player 1, other): %r" % (who, case["seq"], diff)))
+                break
+        if rig.exceptions and not vio:
+            vio.append(violation("loop-exception", "exception reached the loop: %s" % rig.exception_summaries()[:2]))
+        if len(records) >= 2:
+            classes.add("%d first balls compared" % len(records))
+    return Result(vio or None, sorted(classes) or ["plain"], len(records) >= 2)
+
+
 SUBCHECKS = [
     SubCheck("game", lambda: case_strategy, check, quick=2500, thorough=40000, procs_quick=8),
+    SubCheck("twin", lambda: case_twin, check_twin, quick=800, thorough=12000, procs_quick=6),
 ]
